@@ -1128,7 +1128,10 @@ func genC12(r *hysim.Rand, tier string) *hysim.Script {
 			}
 		}
 		sc.Ops = append(sc.Ops, hysim.Op{K: "path", A: []int64{capB, owd, 1 << 40, 0, 0, 1, 0, r.Pick64(0, 0, 1000), r.Pick64(2, 2, 1)}})
-		if sc.Cfg["high_bdp"] == 0 && r.Chance(1, 3) {
+		// (not for the conservative profile: on the unchanged tree it needs more round trips after
+		// such a prelude than this stratum runs - 6-31 % of capacity after ~60 round trips at
+		// thorough scale - which is recorded as an observation in DESIGN.md, not judged here)
+		if sc.Cfg["high_bdp"] == 0 && sc.Cfg["profile"] != 1 && r.Chance(1, 3) {
 			// a request/response prelude: small exchanges, the pipe drains completely each time, for
 			// more rounds than any profile stays in start-up; only then the backlogged transfer
 			sz := r.Pick64(1200, 2500, 6000)
